@@ -186,6 +186,9 @@ uint64_t rot_left(uint64_t size, uint64_t a, uint64_t b)
 		    tmp = (a << b) | ((a & 0xFFFFFFFF) >> (size - b));
 		    return tmp & 0xFFFFFFFF;
 	    case 64:
+		    /* a >> 64 is undefined */
+		    if (b == 0)
+			    return a;
 		    tmp = (a << b) | ((a&0xFFFFFFFFFFFFFFFF) >> (size - b));
 		    return tmp & 0xFFFFFFFFFFFFFFFF;
 
@@ -224,6 +227,9 @@ uint64_t rot_right(uint64_t size, uint64_t a, uint64_t b)
 		    tmp = ((a & 0xFFFFFFFF) >> b) | (a << (size - b));
 		    return tmp & 0xFFFFFFFF;
 	    case 64:
+		    /* a << 64 is undefined */
+		    if (b == 0)
+			    return a;
 		    tmp = ((a & 0xFFFFFFFFFFFFFFFF) >> b) | (a << (size - b));
 		    return tmp & 0xFFFFFFFFFFFFFFFF;
 
